@@ -18,9 +18,16 @@
    and stores x1_inq_dim_out (the current number of records) to shape[0]; the theorem instantiates them with
    NC_NOERR and the model's numrecs.
    Guards: ndims > 0 (the callers test it; the C code reads start[0] unconditionally), the arrays have ndims
-   entries, ndims fits an int, format is a classic one (1, 2, 5), and scs_arith_ok: the sums and products that
-   check_EEDGE computes in MPI_Offset (start + count, (count - 1) * stride, start + (count - 1) * stride) do
-   not overflow.  The last guard is NOT enforced by the library: gen_check_scs_overflow_witness. *)
+   entries, ndims fits an int, format is a classic one (1, 2, 5), the dimension lengths (with the record count
+   in place of shape[0]) are values of MPI_Offset, and scs_sum_ok: for an accepted start (0 <= start <= shape)
+   and a count in [0, shape] the sum start + count, which check_EEDGE computes in MPI_Offset, does not exceed
+   2^63 - 1.  That can fail only for a dimension longer than 2^62 (scs_sum_ok_small); the library does not
+   enforce it (gen_check_scs_sum_witness).
+   The stride test needs NO guard: since commit 084e6895 of /repo check_EEDGE compares
+   stride > (shape - 1 - start) / (count - 1) instead of forming (count - 1) * stride; stride_test_exact and
+   eedge_test prove that test equal to the model's start + (count - 1) * stride >= shape for every stride
+   value, and eedge_checks that its subtractions and its division are defined (operands >= 0, so the
+   truncating C division is the model's floor division). *)
 From Pnc Require Import Base Gen_consts Access CSub Gen_scs Proofs_CSub Proofs_CheckScs.
 Require Import String.
 Require Import Lia ZArith ZifyBool List Bool.
@@ -37,13 +44,10 @@ Proof.
     destruct ((s =? sh) && (c >? 0)); reflexivity.
 Qed.
 
-(* the arithmetic check_EEDGE performs on one dimension stays inside MPI_Offset *)
-Definition edge_arith_ok (s c : Z) (t : option Z) : Prop :=
-  in_i64 (s + c) = true /\
-  match t with
-  | Some tv => in_i64 (c - 1) = true /\ in_i64 ((c - 1) * tv) = true /\ in_i64 (s + (c - 1) * tv) = true
-  | None => True
-  end.
+(* what check_EEDGE still relies on: the sum start + count (evaluated when count <= shape) fits MPI_Offset,
+   start is not negative (the dispatcher has tested it before), shape is a value of MPI_Offset *)
+Definition edge_arith_ok (s c sh : Z) : Prop :=
+  (c <= sh -> in_i64 (s + c) = true) /\ 0 <= s /\ sh <= 9223372036854775807.
 
 Definition ptr_at (pt : c_ptr Z) (t : option Z) : Prop :=
   match t with
@@ -51,25 +55,72 @@ Definition ptr_at (pt : c_ptr Z) (t : option Z) : Prop :=
   | Some tv => p_ok pt 0 = true /\ p_get 0 pt 0 = tv
   end.
 
+(* the stride test without the product:  for c > 1, t > 0 and 0 <= sh - 1 - s,
+   t > (sh - 1 - s) / (c - 1)   iff   s + (c - 1) * t >= sh   — for EVERY stride value t *)
+Lemma stride_test_exact : forall s c t sh, 1 < c -> 0 <= sh - 1 - s ->
+  (t >? (sh - 1 - s) / (c - 1)) = (s + (c - 1) * t >=? sh).
+Proof.
+  intros s c t sh Hc Hd.
+  assert (Hm : (c - 1) * ((sh - 1 - s) / (c - 1)) <= sh - 1 - s < (c - 1) * ((sh - 1 - s) / (c - 1)) + (c - 1)).
+  { pose proof (Z.mul_div_le (sh - 1 - s) (c - 1)). pose proof (Z.mul_succ_div_gt (sh - 1 - s) (c - 1)). lia. }
+  destruct (t >? (sh - 1 - s) / (c - 1)) eqn:E; symmetry; nia.
+Qed.
+
+Lemma eedge_checks : forall s c sh,
+  c <= sh -> s + c <= sh -> 0 <= s -> sh <= 9223372036854775807 -> 1 < c ->
+  in_i64 (sh - 1) = true /\ in_i64 (sh - 1 - s) = true /\ in_i64 (c - 1) = true /\
+  div_ok i64_min (sh - 1 - s) (c - 1) = true.
+Proof.
+  intros s c sh H1 H2 H3 H4 H5.
+  split; [apply in_i64_iff; lia|]. split; [apply in_i64_iff; lia|]. split; [apply in_i64_iff; lia|].
+  apply div_ok_pos. lia.
+Qed.
+
+(* the C test (truncating division on operands that are >= 0 here) against the model's product test *)
+Lemma eedge_test : forall s c tv sh, c <= sh -> s + c <= sh ->
+  ((c >? 1) && (tv >? 0) && (tv >? Z.quot (sh - 1 - s) (c - 1))) = ((c >? 0) && (s + (c - 1) * tv >=? sh)).
+Proof.
+  intros s c tv sh H1 H2.
+  destruct (c >? 1) eqn:Ec; cbn [andb].
+  - rewrite quot_is_div by lia. rewrite stride_test_exact by lia.
+    replace (c >? 0) with true by lia. cbn [andb].
+    destruct (tv >? 0) eqn:Et; cbn [andb]; [reflexivity|].
+    symmetry. assert (Hle : (c - 1) * tv <= 0) by nia. lia.
+  - destruct (c >? 0) eqn:Ec0; cbn [andb]; [|reflexivity].
+    assert (Hceq : c = 1) by lia. subst c. replace (s + (1 - 1) * tv) with s by ring. lia.
+Qed.
+
 Lemma gen_check_EEDGE_eq : forall ps pc pt psh s c t sh,
   p_ok ps 0 = true -> p_get 0 ps 0 = s ->
   p_ok pc 0 = true -> p_get 0 pc 0 = c ->
   p_ok psh 0 = true -> p_get 0 psh 0 = sh ->
-  ptr_at pt t -> edge_arith_ok s c t ->
+  ptr_at pt t -> edge_arith_ok s c sh ->
   check_EEDGE_c ps pc pt psh = FVal (check_EEDGE s c t sh).
 Proof.
-  intros ps pc pt psh s c t sh Hs1 Hs2 Hc1 Hc2 Hh1 Hh2 Ht [Ha Hb].
+  intros ps pc pt psh s c t sh Hs1 Hs2 Hc1 Hc2 Hh1 Hh2 Ht [Ha [Hs0 Hshm]].
   unfold check_EEDGE_c, check_EEDGE_body, check_EEDGE.
-  rewrite ?Hs1, ?Hs2, ?Hc1, ?Hc2, ?Hh1, ?Hh2, ?Ha. cbn [andb].
-  assert (Hif : (if c >? sh then true else true) = true) by (destruct (c >? sh); reflexivity).
+  rewrite ?Hs1, ?Hs2, ?Hc1, ?Hc2, ?Hh1, ?Hh2. cbn [andb].
+  assert (Hif : (if c >? sh then true else in_i64 (s + c) && true) = true).
+  { destruct (c >? sh) eqn:E; [reflexivity|]. rewrite Ha by (clear - E; lia). reflexivity. }
   rewrite !Hif. cbn [c_chk].
   destruct ((c >? sh) || (s + c >? sh)) eqn:E1; cbn [c_bind]; [reflexivity|].
+  assert (Hcs : c <= sh /\ s + c <= sh) by (clear - E1; lia). destruct Hcs as [Hcs1 Hcs2].
   destruct t as [tv|]; cbn [ptr_at] in Ht.
-  - destruct Ht as [Ht1 Ht2]. destruct Hb as [Hb1 [Hb2 Hb3]].
+  - destruct Ht as [Ht1 Ht2].
     assert (Hnn : p_isnull pt = false) by (destruct pt; [reflexivity | discriminate]).
-    rewrite Hnn, Ht1, Ht2, Hb1, Hb2, Hb3. cbn [andb].
-    assert (Hif2 : (if c >? 0 then true else true) = true) by (destruct (c >? 0); reflexivity).
-    rewrite Hif2. cbn [c_chk].
+    rewrite Hnn, Ht1, Ht2. cbn [andb].
+    assert (Hchk : ((if c >? 1 then true else true) &&
+                    (if (c >? 1) && (tv >? 0)
+                     then in_i64 (sh - 1) && true && in_i64 (sh - 1 - s) && in_i64 (c - 1) &&
+                          div_ok i64_min (sh - 1 - s) (c - 1)
+                     else true)) = true).
+    { destruct (c >? 1) eqn:Ec; cbn [andb]; [|reflexivity].
+      destruct (tv >? 0); [|reflexivity].
+      assert (Hc1' : 1 < c) by (clear - Ec; lia).
+      destruct (eedge_checks s c sh Hcs1 Hcs2 Hs0 Hshm Hc1') as [H1 [H2 [H3 H4]]].
+      rewrite H1, H2, H3, H4. reflexivity. }
+    rewrite Hchk. cbn [c_chk].
+    rewrite (eedge_test s c tv sh Hcs1 Hcs2).
     destruct ((c >? 0) && (s + (c - 1) * tv >=? sh)); reflexivity.
   - subst pt. reflexivity.
 Qed.
@@ -169,6 +220,23 @@ Qed.
 Lemma coords_err_end : forall strict st cn shp k, (length st <= k)%nat ->
   coords_err strict (skipn k st) (skipn k cn) (skipn k shp) = NC_NOERR.
 Proof. intros. rewrite (skipn_all' _ st) by assumption. reflexivity. Qed.
+
+(* an accepted start index lies in [0, shape] *)
+Lemma coords_fit : forall strict st cn shp m k,
+  length st = length shp -> length cn = length shp -> (k + m = length shp)%nat ->
+  coords_err strict (skipn k st) (skipn k cn) (skipn k shp) = NC_NOERR ->
+  forall j, (k <= j)%nat -> (j < length shp)%nat -> 0 <= nth j st 0 <= nth j shp 0.
+Proof.
+  intros strict st cn shp. induction m as [|m IH]; intros k Hls Hlc Hk H j Hj1 Hj2; [lia|].
+  rewrite coords_err_step in H by lia. cbv zeta in H.
+  destruct (check_EINVALCOORDS strict (nth k st 0) (nth k cn 0) (nth k shp 0) =? NC_NOERR) eqn:E.
+  - destruct (Nat.eq_dec j k) as [->|Hne].
+    + apply Z.eqb_eq in E. rewrite check_EINVALCOORDS_code in E.
+      destruct (start_fits strict (nth k st 0) (nth k cn 0) (nth k shp 0)) eqn:Ef; [|discriminate].
+      apply start_fits_nonneg in Ef. exact Ef.
+    + apply (IH (S k)); try assumption; lia.
+  - rewrite H in E. discriminate.
+Qed.
 
 Definition NC_STRICT : Z := 2097152.   (* NC_MODE_STRICT_COORD_BOUND as the generated code has it *)
 
@@ -287,7 +355,8 @@ Variables (pncp : c_PNC) (varid isr kz : Z) (st cn : list Z) (stride : option (l
 Lemma loop2_res : forall m k fuel e0 fd ln l2 shp,
   length st = length shp -> length cn = length shp ->
   match stride with Some t => length t = length shp | None => True end ->
-  (forall j, (j < length shp)%nat -> edge_arith_ok (nth j st 0) (nth j cn 0) (nth j (strides_of cn stride) None)) ->
+  (forall j, (k <= j)%nat -> (j < length shp)%nat -> 0 <= nth j cn 0 ->
+             edge_arith_ok (nth j st 0) (nth j cn 0) (nth j shp 0)) ->
   (k + m = length shp)%nat -> (m < fuel)%nat -> Zlen shp <= 2147483647 ->
   let e := edge_err (skipn k st) (skipn k cn) (skipn k (strides_of cn stride)) (skipn k shp) in
   let R := c_loop fuel
@@ -320,8 +389,8 @@ Proof.
     { cbn [Z.eqb loop_post]. split; [discriminate | reflexivity]. }
     scs_st.
     rewrite !p_add_ok_arr by lia. cbn [andb c_chk].
-    pose proof (Har k ltac:(lia)) as Hak.
-    rewrite (strides_of_nth cn stride k) in * by (lia || (destruct stride; [lia | exact I])).
+    pose proof (Har k (Nat.le_refl k) ltac:(lia) ltac:(lia)) as Hak.
+    rewrite (strides_of_nth cn stride k) by (lia || (destruct stride; [lia | exact I])).
     set (sk := nth k st 0) in *. set (ck := nth k cn 0) in *. set (hk := nth k shp 0) in *.
     assert (Hcall : exists tk,
       (if p_isnull (c_arr stride)
@@ -357,7 +426,10 @@ Proof.
       replace (Z.of_nat k + 1) with (Z.of_nat (S k)) by lia.
       assert (Hk' : (S k + m = length shp)%nat) by lia.
       assert (Hf' : (m < f)%nat) by lia.
-      exact (IH (S k) f ek fd ln l2 shp Hls Hlc Hlt Har Hk' Hf' Hn).
+      assert (Har' : forall j, (S k <= j)%nat -> (j < length shp)%nat -> 0 <= nth j cn 0 ->
+                       edge_arith_ok (nth j st 0) (nth j cn 0) (nth j shp 0))
+        by (intros j Hj1 Hj2 Hj3; apply Har; [lia | exact Hj2 | exact Hj3]).
+      exact (IH (S k) f ek fd ln l2 shp Hls Hlc Hlt Har' Hk' Hf' Hn).
     + cbn [loop_post]. split; [change NC_NOERR with 0; lia | reflexivity].
 Qed.
 End Loop2.
@@ -406,25 +478,40 @@ Definition scs_lengths (shape st : list Z) (count stride : option (list Z)) : Pr
   match count with Some cn => length cn = length shape | None => True end /\
   match stride with Some t => length t = length shape | None => True end.
 
-Definition scs_arith_ok (st : list Z) (count stride : option (list Z)) : Prop :=
+(* what remains of the arithmetic guard: the sum start[i] + count[i], which check_EEDGE computes for an accepted
+   start (0 <= start <= shape) and a count in [0, shape], must fit MPI_Offset; it can exceed 2^63 - 1 only when
+   the dimension is longer than 2^62 (scs_sum_ok_small) *)
+Definition scs_sum_ok (shp st : list Z) (count : option (list Z)) : Prop :=
   match count with
   | None => True
   | Some cn => forall j, (j < length st)%nat ->
-                 edge_arith_ok (nth j st 0) (nth j cn 0) (nth j (strides_of cn stride) None)
+                 0 <= nth j st 0 <= nth j shp 0 -> 0 <= nth j cn 0 <= nth j shp 0 ->
+                 nth j st 0 + nth j cn 0 <= 9223372036854775807
   end.
+
+Lemma scs_sum_ok_small : forall shp st count,
+  Forall (fun x => x <= 4611686018427387903) shp -> length st = length shp -> scs_sum_ok shp st count.
+Proof.
+  intros shp st [cn|] Hall Hl; cbn [scs_sum_ok]; [|exact I].
+  intros j Hj Hs Hc.
+  assert (Hx : nth j shp 0 <= 4611686018427387903).
+  { rewrite Forall_forall in Hall. apply Hall. apply nth_In. lia. }
+  lia.
+Qed.
 
 Theorem gen_check_scs_eq : forall pncp varid isr kind recdim shape numrecs st count stride,
   p_ok (PNC__vars pncp) varid = true ->
   p_get c_PNC_var_default (PNC__vars pncp) varid = c_pvar recdim shape ->
   In (PNC__format pncp) [1; 2; 5] ->
   scs_lengths shape st count stride -> Zlen shape <= 2147483647 ->
-  scs_arith_ok st count stride ->
+  Forall (fun x => x <= 9223372036854775807) (shp_of (recdim >=? 0) shape numrecs) ->
+  scs_sum_ok (shp_of (recdim >=? 0) shape numrecs) st count ->
   check_start_count_stride_c pncp varid isr (kind_code kind) (Some (st, 0)) (c_arr count) (c_arr stride)
                              NC_NOERR numrecs
   = FVal (check_scs (PNC__format pncp) (z2b (Z.land (PNC__flag pncp) NC_STRICT)) (recdim >=? 0) (z2b isr)
                     kind shape numrecs (Some st) count stride).
 Proof.
-  intros pncp varid isr kind recdim shape numrecs st count stride Hok Hget Hfmt [Hne [Hls [Hlc Hlt]]] Hn Har.
+  intros pncp varid isr kind recdim shape numrecs st count stride Hok Hget Hfmt [Hne [Hls [Hlc Hlt]]] Hn Hmax Har.
   rewrite check_scs_eq. cbv zeta.
   unfold check_start_count_stride_c, check_start_count_stride_body, st_check_start_count_stride_init.
   set (strict := z2b (Z.land (PNC__flag pncp) NC_STRICT)).
@@ -435,6 +522,9 @@ Proof.
   set (isrec := recdim >=? 0).
   set (shp := shp_of isrec (sh0 :: shr) numrecs).
   assert (Hshp_len : length shp = length (sh0 :: shr)) by (unfold shp, shp_of; destruct isrec; reflexivity).
+  change (shp_of (recdim >=? 0) (sh0 :: shr) numrecs) with shp in Hmax, Har.
+  assert (Hmaxj : forall j, (j < length shp)%nat -> nth j shp 0 <= 9223372036854775807).
+  { intros j Hj. rewrite Forall_forall in Hmax. apply Hmax. apply nth_In. exact Hj. }
   (* the record count replaces shape[0] *)
   match goal with |- c_fun (c_bind ?X _) = _ =>
     assert (H1 : X = CNorm (mkst 0 0 0 0 0 0 shp)) end.
@@ -513,6 +603,14 @@ Proof.
       destruct (coords_err strict (skipn k (s0 :: str)) (skipn k cn1) (skipn k shp) =? NC_NOERR) eqn:E;
         [apply Z.eqb_eq in E; contradiction | reflexivity]. }
   destruct HL1 as [Hce [e2 [l22 Hs']]]. subst s'. fold k. rewrite Hce. cbn [Z.eqb negb]. change (NC_NOERR =? NC_NOERR) with true. cbn [negb c_bind]. scs_st.
+  (* the record index of a read has been accepted against the record count *)
+  assert (Hs0n : isrec = true -> z2b isr = true -> 0 <= s0 <= numrecs).
+  { intros Hi Hr. unfold e_rec in Erec. rewrite Hi, Hr in Erec.
+    destruct ((fmt <? 5) && (s0 >? NC_MAX_UINT)); [discriminate|].
+    destruct ((numrecs =? 0) && (hd 1 cn1 >? 0)); [discriminate|].
+    rewrite check_EINVALCOORDS_code in Erec.
+    destruct (start_fits strict s0 (hd 1 cn1) numrecs) eqn:Ef; [|discriminate].
+    apply start_fits_nonneg in Ef. exact Ef. }
   destruct count as [cn|]; cbn [c_arr p_isnull].
   2:{ destruct kind; reflexivity. }
   destruct cn as [|c0 cnr]; [discriminate|].
@@ -542,10 +640,14 @@ Proof.
       + destruct t as [|t0 tr]; [discriminate|]. cbn [map hd ptr_at]. split; [|reflexivity].
         apply p_ok_cons0.
       + reflexivity.
-    - pose proof (Har 0%nat (Nat.lt_0_succ _)) as Ha0. cbn [nth] in Ha0. fold ts in Ha0.
-      destruct ts as [|t0 tsr] eqn:Ets; [|exact Ha0].
-      exfalso. assert (Hl : length ts = length shp) by (apply strides_of_len; [exact Hlcp | exact Hltp]).
-      rewrite Ets, Hshp_len in Hl. discriminate. }
+    - pose proof (Hs0n eq_refl eq_refl) as Hs0r.
+      assert (Hnr : nth 0 shp 0 = numrecs) by reflexivity.
+      pose proof (Hmaxj 0%nat ltac:(rewrite Hshp_len; cbn [length]; apply Nat.lt_0_succ)) as Hm0. rewrite Hnr in Hm0.
+      assert (Hc0n : 0 <= c0) by (clear - Ec0; lia).
+      split; [|split; [exact (proj1 Hs0r) | exact Hm0]].
+      intros Hcs. apply in_i64_iff.
+      pose proof (Har 0%nat (Nat.lt_0_succ _)) as Ha0. cbn [nth] in Ha0. rewrite Hnr in Ha0.
+      specialize (Ha0 Hs0r (conj Hc0n Hcs)). clear - Ha0 Hs0r Hc0n. lia. }
   destruct H3 as [e3 H3]. rewrite H3. clear H3.
   destruct (negb (e0 =? NC_NOERR)) eqn:Ee0; cbn [c_bind]; [reflexivity|]. unfold mkst. scs_st.
   (* loop 2: counts and edges of the remaining dimensions *)
@@ -553,9 +655,14 @@ Proof.
     set (fuel2 := fu) end.
   assert (Hfuel2 : (length shp - k < fuel2)%nat).
   { unfold fuel2, check_start_count_stride_loop2_fuel. scs_st. rewrite Hkz, Zlen_len. apply c_fuel_lt_enough. exact Hkn. }
-  assert (Har' : forall j, (j < length shp)%nat ->
-            edge_arith_ok (nth j (s0 :: str) 0) (nth j (c0 :: cnr) 0) (nth j (strides_of (c0 :: cnr) stride) None)).
-  { intros j Hj. apply Har. rewrite Hlsp. exact Hj. }
+  assert (Har' : forall j, (k <= j)%nat -> (j < length shp)%nat -> 0 <= nth j (c0 :: cnr) 0 ->
+            edge_arith_ok (nth j (s0 :: str) 0) (nth j (c0 :: cnr) 0) (nth j shp 0)).
+  { intros j Hj1 Hj2 Hj3.
+    pose proof (coords_fit strict (s0 :: str) cn1 shp (length shp - k) k Hlsp Hl1 Hkm Hce j Hj1 Hj2) as Hfit.
+    split; [|split; [exact (proj1 Hfit) | apply Hmaxj; exact Hj2]].
+    intros Hcs. apply in_i64_iff.
+    assert (Hjl : (j < length (s0 :: str))%nat) by (rewrite Hlsp; exact Hj2).
+    pose proof (Har j Hjl Hfit (conj Hj3 Hcs)) as Hsum. clear - Hsum Hfit Hj3. lia. }
   pose proof (loop2_res pncp varid isr (kind_code kind) (s0 :: str) (c0 :: cnr) stride NC_NOERR numrecs
                         (length shp - k) k fuel2 e3 (b2z isrec) ln1 l22 shp Hlsp Hlcp Hltp Har' Hkm Hfuel2 Hn) as HL2.
   cbv zeta in HL2. unfold mkst in HL2. rewrite <- Hkz in HL2. fold ts in HL2.
@@ -629,7 +736,9 @@ Example gen_check_scs_guards_ex :
   (p_ok (PNC__vars pncp) 1 = true /\
    p_get c_PNC_var_default (PNC__vars pncp) 1 = c_pvar 0 [0; 10; 20] /\
    In (PNC__format pncp) [1; 2; 5] /\
-   scs_lengths [0; 10; 20] st cn sd /\ Zlen [0; 10; 20] <= 2147483647 /\ scs_arith_ok st cn sd) /\
+   scs_lengths [0; 10; 20] st cn sd /\ Zlen [0; 10; 20] <= 2147483647 /\
+   Forall (fun x => x <= 9223372036854775807) (shp_of (0 >=? 0) [0; 10; 20] 5) /\
+   scs_sum_ok (shp_of (0 >=? 0) [0; 10; 20] 5) st cn) /\
   check_start_count_stride_c pncp 1 1 (kind_code API_VARS) (Some (st, 0)) (c_arr cn) (c_arr sd) NC_NOERR 5 = FVal NC_NOERR /\
   check_start_count_stride_c pncp 1 1 (kind_code API_VARS) (Some (st, 0)) (c_arr cn) (c_arr sd) NC_NOERR 4 = FVal NC_EEDGE /\
   check_start_count_stride_c pncp 1 0 (kind_code API_VARS) (Some (st, 0)) (c_arr cn) (c_arr (Some [1; 1; 5])) NC_NOERR 4 = FVal NC_EEDGE /\
@@ -638,22 +747,43 @@ Proof.
   cbv zeta. split; [|repeat split].
   split; [reflexivity|]. split; [reflexivity|]. split; [cbn; tauto|].
   split; [repeat split; discriminate|]. split; [cbn; lia|].
-  intros j Hj. cbn [length] in Hj.
-  destruct j as [|[|[|j]]]; [| | |lia]; cbn; repeat split.
+  split; [repeat constructor; lia|].
+  apply scs_sum_ok_small; [repeat constructor; lia | reflexivity].
 Qed.
 
-(* outside the arithmetic guard the C expression start[i] + (count[i] - 1) * stride[i] overflows a signed 64-bit
-   integer (undefined behaviour), while the model, over the integers, says NC_EEDGE *)
-Example gen_check_scs_overflow_witness :
+(* The stride test is free of overflow for EVERY stride value: gen_check_EEDGE_eq has no hypothesis about the
+   stride.  Before the repair of check_EEDGE (commit 084e6895 of /repo: the product (count - 1) * stride replaced
+   by a division) the inputs below made the C arithmetic overflow and the request was accepted; now the generated
+   function agrees with the model on them. *)
+Example gen_check_scs_huge_strides :
   let pncp := ex_pnc 5 0 [c_pvar (-1) [10]] in
   check_start_count_stride_c pncp 0 0 (kind_code API_VARS) (Some ([0], 0)) (Some ([3], 0))
-                             (Some ([4611686018427387904], 0)) NC_NOERR 0
-    = FUndef "check_EEDGE: if (*count > 0 && *start + (*count - 1) * (*stride) >= *shape)" /\
-  check_scs 5 false false false API_VARS [10] 0 (Some [0]) (Some [3]) (Some [4611686018427387904]) = NC_EEDGE /\
-  ~ scs_arith_ok [0] (Some [3]) (Some [4611686018427387904]).
+                             (Some ([4611686018427387904], 0)) NC_NOERR 0 = FVal NC_EEDGE /\
+  check_start_count_stride_c pncp 0 0 (kind_code API_VARS) (Some ([0], 0)) (Some ([5], 0))
+                             (Some ([4611686018427387905], 0)) NC_NOERR 0 = FVal NC_EEDGE /\
+  check_start_count_stride_c pncp 0 0 (kind_code API_VARS) (Some ([0], 0)) (Some ([2], 0))
+                             (Some ([9223372036854775807], 0)) NC_NOERR 0 = FVal NC_EEDGE /\
+  check_start_count_stride_c pncp 0 0 (kind_code API_VARS) (Some ([0], 0)) (Some ([2], 0))
+                             (Some ([-9223372036854775808], 0)) NC_NOERR 0 = FVal NC_ESTRIDE /\
+  check_start_count_stride_c pncp 0 0 (kind_code API_VARS) (Some ([0], 0)) (Some ([4], 0))
+                             (Some ([3], 0)) NC_NOERR 0 = FVal NC_NOERR /\
+  check_start_count_stride_c pncp 0 0 (kind_code API_VARS) (Some ([1], 0)) (Some ([4], 0))
+                             (Some ([3], 0)) NC_NOERR 0 = FVal NC_EEDGE /\
+  check_scs 5 false false false API_VARS [10] 0 (Some [0]) (Some [5]) (Some [4611686018427387905]) = NC_EEDGE.
+Proof. cbv zeta. repeat split. Qed.
+
+(* what remains: a dimension longer than 2^62 lets start + count exceed MPI_Offset (start <= shape and
+   count <= shape do not bound the sum below 2^63); there the C sum is undefined, the model says NC_EEDGE *)
+Example gen_check_scs_sum_witness :
+  let big := 4611686018427387905 in     (* 2^62 + 1 *)
+  let pncp := ex_pnc 5 0 [c_pvar (-1) [big]] in
+  check_start_count_stride_c pncp 0 0 (kind_code API_VARA) (Some ([big - 1], 0)) (Some ([big], 0)) None NC_NOERR 0
+    = FUndef "check_EEDGE: if (*count > *shape || *start + *count > *shape)" /\
+  check_scs 5 false false false API_VARA [big] 0 (Some [big - 1]) (Some [big]) None = NC_EEDGE /\
+  ~ scs_sum_ok [big] [big - 1] (Some [big]).
 Proof.
   cbv zeta. split; [reflexivity|]. split; [reflexivity|].
-  intros H. specialize (H 0%nat ltac:(cbn; lia)). cbn in H. destruct H as [_ [_ [H _]]]. discriminate.
+  intros H. specialize (H 0%nat ltac:(cbn; lia)). cbn [nth] in H. lia.
 Qed.
 
 Print Assumptions gen_check_scs_eq.
